@@ -13,6 +13,11 @@ package main
 //	                                   ifexp                if(req.http.Host, <local>, <local>)
 //	                                   call                 result of a functional subroutine returning rty
 //
+//	                                   dinit dexpr copy compound default inif   a local variable that got its value by a
+//	                                                        declaration with initialiser (literal / variable), from another
+//	                                                        variable, by a compound operator, never, inside an if block
+//	L,<op>,<lty>,<lprov>,<rty>,<form>  the same provenances for the LEFT operand (form: lit or local)
+//
 //	C,<ctx>,<E>,<T>,<form>             a value of type T in one of the eight forms where a value of type E is expected:
 //	                                   ctx = arg (argument of a built-in expecting E), ret (return value of a functional
 //	                                   subroutine of return type E), par (argument bound to a parameter of type E)
@@ -40,6 +45,77 @@ func tChainProgram(decls, body string, depth, mask int) string {
 	return b.String()
 }
 
+// a local variable of the type that got its value in a particular way ("provenance"):
+//
+//	dinit     declare local var.x T = <literal or declared name>;
+//	dexpr     declare local var.x T = <another local variable>;
+//	copy      declare local var.x T; set var.x = <another local variable>;
+//	compound  assigned, then updated by a compound operator
+//	default   declared and never assigned
+//	inif      assigned inside an if block
+func tInitValue(ty string, left bool) (string, bool) {
+	init := map[string]string{"INTEGER": "7", "FLOAT": "2.5", "STRING": `"192.0.2.1"`, "BOOL": "true", "RTIME": "90s",
+		"TIME": "now", "IP": `"192.0.2.9"`, "BACKEND": "be_two", "ACL": "acl_one"}
+	if left {
+		init["INTEGER"], init["FLOAT"], init["RTIME"] = "42", "40.5", "3600s"
+	}
+	v, ok := init[ty]
+	return v, ok
+}
+
+var tProvForms = map[string]bool{"dinit": true, "dexpr": true, "copy": true, "compound": true, "default": true, "inif": true}
+
+func tProvOperand(ty, prov, name string, left bool) (decl, expr string, ok bool) {
+	if ty == "header" {
+		return "", "", false
+	}
+	v, hasInit := tInitValue(ty, left)
+	x := "var." + name
+	switch prov {
+	case "dinit":
+		switch ty {
+		case "INTEGER", "FLOAT", "STRING", "BOOL", "RTIME", "BACKEND", "ACL":
+			return "declare local " + x + " " + ty + " = " + v + ";\n", x, true
+		}
+		return "", "", false
+	case "dexpr", "copy":
+		if !hasInit {
+			return "", "", false
+		}
+		q := x + "q"
+		d := "declare local " + q + " " + ty + ";\nset " + q + " = " + v + ";\n"
+		if prov == "dexpr" {
+			return d + "declare local " + x + " " + ty + " = " + q + ";\n", x, true
+		}
+		return d + "declare local " + x + " " + ty + ";\nset " + x + " = " + q + ";\n", x, true
+	case "compound":
+		d := "declare local " + x + " " + ty + ";\n"
+		switch ty {
+		case "INTEGER":
+			return d + "set " + x + " = " + v + ";\nset " + x + " += 1;\n", x, true
+		case "FLOAT":
+			return d + "set " + x + " = " + v + ";\nset " + x + " += 1.5;\n", x, true
+		case "RTIME":
+			return d + "set " + x + " = " + v + ";\nset " + x + " += 5s;\n", x, true
+		case "TIME":
+			return d + "set " + x + " = now;\nset " + x + " += 5s;\n", x, true
+		case "STRING":
+			return d + "set " + x + " = \"192.0.2.\";\nset " + x + " += \"1\";\n", x, true
+		case "BOOL":
+			return d + "set " + x + " = false;\nset " + x + " ||= true;\n", x, true
+		}
+		return "", "", false
+	case "default":
+		return "declare local " + x + " " + ty + ";\n", x, true
+	case "inif":
+		if !hasInit {
+			return "", "", false
+		}
+		return "declare local " + x + " " + ty + ";\nif (req.http.Host) {\nset " + x + " = " + v + ";\n}\n", x, true
+	}
+	return "", "", false
+}
+
 var tBaseForm = map[string]string{"plit": "lit", "plocal": "local", "ppredef": "predef"}
 
 // right-hand value of a type in one of the eight forms
@@ -63,6 +139,9 @@ func tRhsOf(ty, form string) (tRhs, bool) {
 		}
 		d, e, ok := tOperand(ty, tBaseForm[form], "a", false)
 		return tRhs{expr: "var.r", wrapParam: ty + " var.r", argDecls: d, arg: e}, ok
+	case "dinit", "dexpr", "copy", "compound", "default", "inif":
+		d, e, ok := tProvOperand(ty, form, "r", false)
+		return tRhs{decls: d, expr: e}, ok
 	case "ifexp":
 		d1, e1, ok := tOperand(ty, "local", "r", false)
 		d2, e2, _ := tOperand(ty, "local", "q", false)
@@ -93,7 +172,18 @@ func tAssemble(r tRhs, extraSubs, useDecls, use string) string {
 }
 
 func tOpProgram(op, lty, rty, form string) (string, error) {
-	ld, le, ok := tOperand(lty, "local", "l", true)
+	return tOpProgramL(op, lty, "local", rty, form)
+}
+
+// the left operand (assignment target / left side of the comparison) with a provenance of its own
+func tOpProgramL(op, lty, lprov, rty, form string) (string, error) {
+	var ld, le string
+	var ok bool
+	if lprov == "local" {
+		ld, le, ok = tOperand(lty, "local", "l", true)
+	} else {
+		ld, le, ok = tProvOperand(lty, lprov, "l", true)
+	}
 	if !ok {
 		return "", fmt.Errorf("no left operand of type %s", lty)
 	}
